@@ -324,3 +324,95 @@ pub fn region_diff(a: &Operand, b: &Operand) -> Option<(f64, f64)> {
 pub fn is_rectilinear(o: &Operand) -> bool {
     o.iter().flatten().all(|r| r.windows(2).all(|w| w[0][0] == w[1][0] || w[0][1] == w[1][1]))
 }
+
+// ------------------------------------------------------------------ validity of integer operands (exact)
+
+fn orient(a: [f64; 2], b: [f64; 2], c: [f64; 2]) -> i128 {
+    let (ax, ay, bx, by, cx, cy) = (a[0] as i128, a[1] as i128, b[0] as i128, b[1] as i128, c[0] as i128, c[1] as i128);
+    (bx - ax) * (cy - ay) - (by - ay) * (cx - ax)
+}
+fn on_seg(a: [f64; 2], b: [f64; 2], p: [f64; 2]) -> bool {
+    orient(a, b, p) == 0 && p[0] >= a[0].min(b[0]) && p[0] <= a[0].max(b[0]) && p[1] >= a[1].min(b[1]) && p[1] <= a[1].max(b[1])
+}
+/// closed segments share at least one point (exact for integer coordinates)
+fn segs_meet(a: [f64; 2], b: [f64; 2], c: [f64; 2], d: [f64; 2]) -> bool {
+    let (o1, o2, o3, o4) = (orient(a, b, c).signum(), orient(a, b, d).signum(), orient(c, d, a).signum(), orient(c, d, b).signum());
+    if o1 != o2 && o3 != o4 {
+        return true;
+    }
+    on_seg(a, b, c) || on_seg(a, b, d) || on_seg(c, d, a) || on_seg(c, d, b)
+}
+
+/// Valid in the sense of the properties' quantifier, decided exactly for integer coordinates and
+/// hole-free parts: every ring simple with non-zero area, distinct parts not even touching.
+pub fn valid_simple_parts(o: &Operand) -> bool {
+    if o.iter().flatten().flatten().any(|c| c[0].fract() != 0.0 || c[1].fract() != 0.0 || c[0].abs() > 1e9 || c[1].abs() > 1e9) {
+        return false;
+    }
+    let mut all: Vec<(usize, Vec<([f64; 2], [f64; 2])>)> = Vec::new();
+    for (pi, p) in o.iter().enumerate() {
+        if p.len() != 1 {
+            return false;
+        }
+        let r = &p[0];
+        if r.len() < 4 || r[0] != r[r.len() - 1] {
+            return false;
+        }
+        let n = r.len() - 1;
+        let mut area2: i128 = 0;
+        for i in 0..n {
+            area2 += orient([0.0, 0.0], r[i], r[i + 1]);
+            if r[i] == r[i + 1] {
+                return false;
+            }
+        }
+        if area2 == 0 {
+            return false;
+        }
+        let segs: Vec<_> = (0..n).map(|i| (r[i], r[i + 1])).collect();
+        for i in 0..n {
+            // consecutive edges must not fold back
+            let j = (i + 1) % n;
+            if orient(segs[i].0, segs[i].1, segs[j].1) == 0 && !(on_seg(segs[i].0, segs[j].1, segs[i].1)) {
+                return false;
+            }
+            for k in i + 2..n {
+                if i == 0 && k == n - 1 {
+                    continue;
+                }
+                if segs_meet(segs[i].0, segs[i].1, segs[k].0, segs[k].1) {
+                    return false;
+                }
+            }
+        }
+        all.push((pi, segs));
+    }
+    for x in 0..all.len() {
+        for y in x + 1..all.len() {
+            for s in &all[x].1 {
+                for t in &all[y].1 {
+                    if segs_meet(s.0, s.1, t.0, t.1) {
+                        return false;
+                    }
+                }
+            }
+            // containment of one part in the other
+            let (a, b) = (&o[all[x].0][0], &o[all[y].0][0]);
+            if ring_contains(a, b[0][0], b[0][1]) || ring_contains(b, a[0][0], a[0][1]) {
+                return false;
+            }
+        }
+    }
+    true
+}
+
+/// lattice stars filtered to valid operands (simple rings, disjoint parts)
+pub fn gen_valid_star_operand(r: &mut Rng, g: i64) -> Operand {
+    for _ in 0..40 {
+        let o = gen_star_operand(r, g);
+        if valid_simple_parts(&o) {
+            return o;
+        }
+    }
+    vec![vec![vec![[0.0, 0.0], [3.0, 0.0], [0.0, 3.0], [0.0, 0.0]]]]
+}
